@@ -84,6 +84,21 @@ impl Write for ShortWriter {
         Ok(())
     }
 }
+/// a writer that is full after `cap` bytes: further writes return Ok(0) (std's `&mut [u8]`)
+pub struct ZeroWriter {
+    pub out: Vec<u8>,
+    pub cap: usize,
+}
+impl Write for ZeroWriter {
+    fn write(&mut self, buf: &[u8]) -> io::Result<usize> {
+        let n = buf.len().min(self.cap - self.out.len());
+        self.out.extend_from_slice(&buf[..n]);
+        Ok(n)
+    }
+    fn flush(&mut self) -> io::Result<()> {
+        Ok(())
+    }
+}
 impl Write for FaultWriter {
     fn write(&mut self, buf: &[u8]) -> io::Result<usize> {
         if let Some(k) = self.fail_after {
@@ -376,6 +391,17 @@ pub fn check_one(rep: &Report, cfg: &Cfg, b: &Built, pats: &[Vec<u8>], data: &[u
         rep.case(true);
         if !matches!(&r, Ok(Err(_))) || !want_out.starts_with(&w.out) {
             fail(rep, "read-fault-replace", cfg, pats, data, si, spare, Some(k), format!("fault-free output '{}', written '{}', result {:?}", show(&want_out), show(&w.out), r.map(|x| x.map_err(|e| e.to_string()))));
+        }
+    }
+    // C18: a writer that is full after k bytes (write returns Ok(0)): an error, and a prefix written
+    if let Built::Top(t) = b {
+        for k in 0..want_out.len() {
+            let mut w = ZeroWriter { out: vec![], cap: k };
+            let r = catch_unwind(AssertUnwindSafe(|| t.try_stream_replace_all(SchedReader { data, pos: 0, sched: SCHEDS[si], i: 0, fail_at: None, repeat: 0, eof: None }, &mut w, &repl)));
+            rep.case(true);
+            if !matches!(&r, Ok(Err(_))) || !want_out.starts_with(&w.out) {
+                fail(rep, "full-writer", cfg, pats, data, si, spare, Some(k), format!("fault-free output '{}', written '{}' into a writer that takes {} bytes, result {:?}", show(&want_out), show(&w.out), k, r.map(|x| x.map_err(|e| e.to_string()))));
+            }
         }
     }
     // C18: a write fault after k bytes
